@@ -4,8 +4,9 @@
    H = hash oracle (arbitrary function), hbits = its output length, G = (p, q, g); coins `raw` arbitrary integers.
    wf_params: 1 < p odd, 0 < q, g^q = 1 (mod p), |q| <= TMCG_MAX_FPOWM_T, 0 <= H(.) < 2^hbits.
    elem a = CheckElement(a):  0 < a < p and a^q = 1 (mod p). *)
-From Coq Require Import ZArith List Lia.
+From Coq Require Import ZArith List Lia String.
 From LT Require Import Zbase gen_Consts SigmaPrim KeyRingModel KeyRingLemmas SigmaModel SigmaLemmas.
+From LT Require Import gen_FSInputs FsModel SigmaFsAgree SigmaFsLemmas.
 Import ListNotations.
 Local Open Scope Z_scope.
 
@@ -104,6 +105,17 @@ Theorem C03_decryption_prover_total : forall H hbits G, wf_params H hbits G -> f
 Proof. exact decrypt_prove_some. Qed.
 Print Assumptions C03_decryption_prover_total.
 
+(* prover and verifier of every non-interactive argument (GrothSKC, GrothVSSHE, PUBROTZK, VRHE, and the VTMF proofs) hash the
+   same argument list, position by position, up to the names of recomputed values; checked by computation on the table of hash
+   calls regenerated from the sources (a Fiat-Shamir input swapped, dropped or added on one side only falsifies it) *)
+Theorem C03_fiat_shamir_arguments_agree : fs_all_agree = true.
+Proof. exact fs_arguments_agree. Qed.
+Print Assumptions C03_fiat_shamir_arguments_agree.
+
+Theorem C03_fiat_shamir_arguments_agree_each : forall n b, In (n, b) fs_agreements -> b = true.
+Proof. exact fs_arguments_agree_each. Qed.
+Print Assumptions C03_fiat_shamir_arguments_agree_each.
+
 (* non-vacuity: the tiny group of KeyRingLemmas satisfies the hypotheses; 16 = 2^4 is a group element *)
 Example C03_nonvacuous_wf : wf_params dup_H 8 dup_G /\ elem dup_G 16 /\ elem dup_G 8.
 Proof. split; [exact dup_wf|]. split; vm_compute; reflexivity. Qed.
@@ -112,3 +124,5 @@ Example C03_nonvacuous_masking :
   mask_prove dup_H dup_G 16 (precompute 16 11) 8 8 16 3 7 = Some (0, 7) /\
   mask_verify dup_H 8 dup_G 16 (precompute 16 11) 8 8 16 true 0 7 = Accept.
 Proof. repeat split; vm_compute; reflexivity. Qed.
+Example C03_nonvacuous_fs : List.length fs_agreements = 16%nat /\ In ("vsshe lambda"%string, true) fs_agreements.
+Proof. split; [reflexivity|]. vm_compute. tauto. Qed.
